@@ -7,7 +7,9 @@
 //! is called through `Distances::*` / `Distance::distance` on the real library code. Mahalanobis is
 //! additionally built from every small integer SPD covariance matrix, from structured SPD families
 //! up to order 12, and from every full-rank lattice data set of up to 5 rows — also rescaled by
-//! powers of two (round 2) and shifted by a large common offset vector (round 3).
+//! powers of two (round 2) and shifted by a large common offset vector (round 3); and (round 4) from
+//! the structured SPD families at orders up to 30 with variances down to 2^-40 and from 8- / 12-column
+//! data sets of small spread, where the determinant leaves the range of the type.
 //!
 //! The oracle is a double-double evaluation of the closed forms (module `dd`), the metric axioms,
 //! the coincidence clauses and the rejection of mismatched lengths.
@@ -907,6 +909,230 @@ fn mdata_exec<T: Fl>(job: &Job) {
 }
 
 // ------------------------------------------------------------------------------------------------
+// round 4: larger orders combined with small variances. One execution = one covariance matrix
+// (from-covariance) or one data set (from-data): ONE construction / factorisation by the library, and
+// inside it every ordered pair and every ordered triple of the structured vector catalogue of that
+// length (documented inner loop; a violation carries the matrix, the scale and the two vectors).
+
+/// Input class of a construction failure, decided from the input alone: the determinant of the
+/// (well-conditioned, cond2 <= 1e4) covariance — the product of the pivots, about variance^order —
+/// lies outside the normal range of T although every entry and every pivot is comfortably inside.
+fn det_out_of_range<T: Fl>(log2det: Option<f64>) -> bool {
+    matches!(log2det, Some(l) if l < T::EMIN as f64 || l >= T::EMAX as f64)
+}
+
+fn construction_site(op: &str, det_out: bool) -> String {
+    if det_out {
+        format!("mahalanobis.{}:panic-large-order-small-variance", op)
+    } else {
+        format!("mahalanobis.{}:panic", op)
+    }
+}
+
+/// Development aid: `C17_BIG_INFO=1` prints one line per execution of the round-4 families
+/// (condition number, log2 of the determinant, largest error in units of the tolerance and in units
+/// of cond2 * eps) — how the calibration figures in NOTES.md were measured.
+fn big_info() -> bool {
+    static ON: std::sync::OnceLock<bool> = std::sync::OnceLock::new();
+    *ON.get_or_init(|| std::env::var("C17_BIG_INFO").is_ok())
+}
+
+struct AllPairs {
+    digest: u64,
+    distinct: u64,
+    in_tol: u64,
+    /// largest |d - ref| / tolerance over the in-range pairs
+    max_ratio: f64,
+    /// largest |d - ref| / (cond2 * eps_T * ref)
+    max_cond_units: f64,
+    triples: u64,
+    dist: Vec<Vec<f64>>,
+}
+
+/// All clauses for every ordered pair and every ordered triple of the query catalogue `q` under the
+/// library instance `md`; `inv` is the double-double inverse of the exact covariance.
+#[allow(clippy::too_many_arguments)]
+fn judge_all_pairs<T: Fl>(md: &Mahalanobis<T, DenseMatrix<T>>, inv: &[Vec<dd::DD>], q: &Cat<T>, n: usize, cond: f64, label: &str, what: &dyn Fn() -> String) -> AllPairs {
+    let nq = q.typed.len();
+    let inv_max = inv.iter().flatten().fold(0.0f64, |m, v| m.max(v.hi.abs()));
+    let units = maha_tol_units(n, cond);
+    let mut r = AllPairs { digest: 0x21, distinct: 0, in_tol: 0, max_ratio: 0.0, max_cond_units: 0.0, triples: 0, dist: vec![vec![f64::NAN; nq]; nq] };
+    for i in 0..nq {
+        for j in 0..nq {
+            let (xv, yv) = (&q.vals[i], &q.vals[j]);
+            let df = dd::diff(xv, yv);
+            let refv = if df.zero { 0.0 } else { df.quadratic(inv).to_f64() };
+            let class = if df.zero { None } else { maha_class::<T>(n, df.log2_max(), dd::ilog2(inv_max)) };
+            let call = |a: usize, b: usize| mc::guard(|| md.distance(&q.typed[a], &q.typed[b]).f());
+            let ctx = || format!("{} x={:?} ({}) y={:?} ({})", what(), xv, q.names[i], yv, q.names[j]);
+            let o = judge_pair::<T>("mahalanobis", label, class, df.zero, [call(i, j), call(j, i), call(i, i)], refv, units, &ctx);
+            r.dist[i][j] = o.dxy;
+            r.digest = mc::hash::mix(r.digest, mc::hash::canon_bits(o.dxy));
+            if !df.zero && !o.dxy.is_nan() {
+                r.distinct += 1;
+                if o.ok && class.is_none() && o.dxy > 0.0 && o.dxy.is_finite() {
+                    r.in_tol += 1;
+                    let err = (o.dxy - refv).abs();
+                    r.max_ratio = r.max_ratio.max(err / o.tol);
+                    r.max_cond_units = r.max_cond_units.max(err / (cond * T::EPS * refv));
+                }
+            }
+        }
+    }
+    let rel = units * T::EPS;
+    let mut tight = 0u64;
+    for i in 0..nq {
+        for j in 0..nq {
+            for k in 0..nq {
+                let (dxy, dxz, dzy) = (r.dist[i][j], r.dist[i][k], r.dist[k][j]);
+                if dxy.is_nan() || dxz.is_nan() || dzy.is_nan() {
+                    continue;
+                }
+                r.triples += 1;
+                if !triangle_ok(dxy, dxz, dzy, rel) {
+                    let legs = [max_l2(&q.vals[i], &q.vals[j]), max_l2(&q.vals[i], &q.vals[k]), max_l2(&q.vals[k], &q.vals[j])];
+                    let class = legs.iter().flatten().find_map(|l| maha_class::<T>(n, *l, dd::ilog2(inv_max)));
+                    viol!(site("mahalanobis", "triangle", class), format!("{} {} x={:?} y={:?} z={:?}: d(x,y) = {:e} > d(x,z) + d(z,y) = {:e} + {:e}", label, what(), q.vals[i], q.vals[j], q.vals[k], dxy, dxz, dzy));
+                } else if dxy > 0.0 && dxz > 0.0 && dzy > 0.0 && dxy >= (dxz + dzy) * (1.0 - rel) {
+                    tight += 1;
+                }
+            }
+        }
+    }
+    mc::count_n("triples_checked", r.triples);
+    mc::count_n("triangle_tight", tight);
+    mc::count_n("pair_metric_checks", (nq * nq) as u64);
+    mc::count_n("pairs_distinct_vectors", r.distinct);
+    r
+}
+
+/// Every nonzero entry of the matrix is a normal, finite number of T (the only reason to leave a
+/// (matrix, scale, type) combination out of the round-4 family).
+fn entries_in_normal_range<T: Fl>(m: &cat::Mat, raw: &cat::Mat) -> bool {
+    let tiny = dd::ldexp(1.0, T::EMIN);
+    m.iter().flatten().zip(raw.iter().flatten()).all(|(v, r)| if *r == 0.0 { *v == 0.0 } else { v.is_finite() && v.abs() >= tiny })
+}
+
+fn covl_catalogue<T: Fl>(job: &Job) -> CovCat<T> {
+    let n = job.u("dim");
+    let cs = dd::ldexp(1.0, job.params["cs2"].as_i64().unwrap_or(0) as i32);
+    let mats = cat::spd_structured(n)
+        .into_iter()
+        .filter_map(|(name, m)| {
+            let typed: cat::Mat = m.iter().map(|r| r.iter().map(|v| T::of(v * cs).f()).collect()).collect();
+            if !entries_in_normal_range::<T>(&typed, &m) {
+                return None;
+            }
+            let cond = cond2_any_scale(&typed);
+            (cond <= 1e4).then_some((name, typed, cond))
+        })
+        .collect();
+    CovCat { mats, q: build_cat::<T>(cat::structured(n, job.b("full")), scale_of(job)) }
+}
+
+fn mcovl_exec<T: Fl>(job: &Job) {
+    let cc: Rc<CovCat<T>> = cached(&job.name, || covl_catalogue::<T>(job));
+    if cc.mats.is_empty() {
+        mc::count("empty_matrix_chunk");
+        return;
+    }
+    let mi = mc::choose(cc.mats.len());
+    let (name, sigma, cond) = &cc.mats[mi];
+    let q = &cc.q;
+    let n = q.n;
+    let cs2 = job.params["cs2"].as_i64().unwrap_or(0);
+    let log2det = dd::log2_abs_det(&dd::dd_mat(sigma));
+    let det_out = det_out_of_range::<T>(log2det);
+    // the matrix is determined by (family, order, scale, type); `describe` carries every entry
+    let what = || format!("covariance '{}' of order {} times 2^{} (cond2 {:.1}, det = 2^{:.1}, diagonal {:e} .. {:e}) with the vectors times {} [{}]", name, n, cs2, cond, log2det.unwrap_or(f64::NAN), sigma[0][0], sigma[n - 1][n - 1], scale_text(job), T::NAME);
+    mc::count("maha_large_order_matrices");
+    if det_out {
+        mc::count("maha_large_order_det_outside_range_of_type");
+    }
+    let md = match mc::guard(|| Mahalanobis::new_from_covariance(&mc_sc::dm::<T>(sigma))) {
+        Ok(m) => m,
+        Err(p) => {
+            viol!(construction_site("new_from_covariance", det_out), format!("{}: construction from a well-conditioned SPD matrix failed: {}", what(), p.brief()));
+            mc::nontrivial();
+            mc::outcome(mc::hash::mix(0x21, 1));
+            mc::describe(|| json!({"family": "mahalanobis from covariance, larger orders x small variances", "type": T::NAME, "covariance": sigma, "covariance_name": name, "order": n, "cond2": cond, "log2_det": log2det, "observed": p.brief()}));
+            return;
+        }
+    };
+    mc::count("maha_large_order_constructed");
+    if det_out {
+        mc::count("maha_large_order_constructed_det_outside_range");
+    }
+    let Some(inv) = dd::inverse(&dd::dd_mat(sigma)) else {
+        panic!("reference inverse failed on a catalogue matrix {:?}", sigma);
+    };
+    let r = judge_all_pairs::<T>(&md, &inv, q, n, *cond, "Mahalanobis", &what);
+    mc::count_n("maha_large_order_pairs", r.distinct);
+    mc::count_n("maha_large_order_pairs_in_tolerance", r.in_tol);
+    if (0..n).any(|a| (0..n).any(|b| a != b && sigma[a][b] != 0.0)) {
+        mc::count_n("maha_nonidentity_covariance", r.distinct);
+    }
+    if big_info() {
+        eprintln!("BIGINFO mcov {} n={} cs2={} '{}' cond={:.1} log2det={:.1} det_out={} pairs={} in_tol={} max_ratio={:.5} max_cond_units={:.3}", T::NAME, n, cs2, name, cond, log2det.unwrap_or(f64::NAN), det_out, r.distinct, r.in_tol, r.max_ratio, r.max_cond_units);
+    }
+    mc::nontrivial();
+    mc::outcome(r.digest);
+    mc::describe(|| json!({"family": "mahalanobis from covariance, larger orders x small variances", "type": T::NAME, "covariance": sigma, "covariance_name": name, "order": n, "cond2": cond, "log2_det": log2det, "vector_scale": scale_text(job), "vectors": q.vals, "library_distances": r.dist, "triples_checked": r.triples}));
+}
+
+/// Round 4, from data: one of the deterministic d = 8 / 12 column designs with m = d+2 .. d+4 rows,
+/// one column scaling; query points = the structured catalogue of length d, scaled per column.
+fn mdatal_exec<T: Fl>(job: &Job) {
+    let d = job.u("d");
+    let m = job.u("m");
+    let design = mc::choose(cat::BIG_DESIGNS.len());
+    let variant = mc::choose(cat::BIG_COLSCALES.len());
+    let cscale = cat::big_data_colscale(variant, d);
+    let rows_int = cat::big_data_rows(d, m, design);
+    let rows: Vec<Vec<f64>> = rows_int.iter().map(|r| r.iter().zip(&cscale).map(|(v, c)| T::of(v * c).f()).collect()).collect();
+    let cov = dd::sample_cov(&rows);
+    let covf: cat::Mat = cov.iter().map(|r| r.iter().map(|v| v.to_f64()).collect()).collect();
+    let cond = cond2_any_scale(&covf);
+    // the designs are fixed and well conditioned; this is a guard of the family definition
+    assert!(cond <= 1e4, "design '{}' d={} m={} scaling {}: cond2 {} > 1e4", cat::BIG_DESIGNS[design], d, m, cat::BIG_COLSCALES[variant], cond);
+    let log2det = dd::log2_abs_det(&cov);
+    let det_out = det_out_of_range::<T>(log2det);
+    let (vmin, vmax) = (0..d).fold((f64::INFINITY, 0.0f64), |(lo, hi), j| (lo.min(covf[j][j]), hi.max(covf[j][j])));
+    let what = || format!("data set '{}' with {} rows, {} columns, columns {} (column variances {:.3e} .. {:.3e}, cond2 {:.1}, det = 2^{:.1}) rows {:?} [{}]", cat::BIG_DESIGNS[design], m, d, cat::BIG_COLSCALES[variant], vmin, vmax, cond, log2det.unwrap_or(f64::NAN), rows, T::NAME);
+    mc::count("maha_data_large_sets");
+    if variant != 0 {
+        mc::count("maha_data_large_small_variance_sets");
+    }
+    if det_out {
+        mc::count("maha_data_large_det_outside_range_of_type");
+    }
+    let md = match mc::guard(|| Distances::mahalanobis(&mc_sc::dm::<T>(&rows))) {
+        Ok(v) => v,
+        Err(p) => {
+            viol!(construction_site("new", det_out), format!("{}: construction from full-rank, well-conditioned data failed: {}", what(), p.brief()));
+            mc::nontrivial();
+            mc::outcome(mc::hash::mix(0x22, 1));
+            mc::describe(|| json!({"family": "mahalanobis from data, 8 / 12 columns of small spread", "type": T::NAME, "rows": rows, "sample_covariance": covf, "cond2": cond, "log2_det": log2det, "observed": p.brief()}));
+            return;
+        }
+    };
+    mc::count("maha_data_large_constructed");
+    let Some(inv) = dd::inverse(&cov) else { panic!("reference inverse failed for full-rank data {:?}", rows) };
+    let qraw: Vec<(String, Vec<f64>)> = cat::structured(d, false).into_iter().map(|(nm, v)| (nm, v.iter().zip(&cscale).map(|(x, c)| x * c).collect())).collect();
+    let q = build_cat::<T>(qraw, 1.0);
+    let r = judge_all_pairs::<T>(&md, &inv, &q, d, cond, "Mahalanobis(from data)", &what);
+    mc::count_n("maha_data_large_pairs", r.distinct);
+    mc::count_n("maha_data_large_pairs_in_tolerance", r.in_tol);
+    mc::count("data_sets_full_rank");
+    if big_info() {
+        eprintln!("BIGINFO mdata {} d={} m={} '{}' {} cond={:.1} var={:.2e}..{:.2e} log2det={:.1} det_out={} pairs={} in_tol={} max_ratio={:.5} max_cond_units={:.3}", T::NAME, d, m, cat::BIG_DESIGNS[design], cat::BIG_COLSCALES[variant], cond, vmin, vmax, log2det.unwrap_or(f64::NAN), det_out, r.distinct, r.in_tol, r.max_ratio, r.max_cond_units);
+    }
+    mc::nontrivial();
+    mc::outcome(mc::hash::mix(0x22, r.digest));
+    mc::describe(|| json!({"family": "mahalanobis from data, 8 / 12 columns of small spread", "type": T::NAME, "design": cat::BIG_DESIGNS[design], "column_scaling": cat::BIG_COLSCALES[variant], "rows": rows, "sample_covariance": covf, "cond2": cond, "log2_det": log2det, "query_points": q.vals, "library_distances": r.dist}));
+}
+
+// ------------------------------------------------------------------------------------------------
 // mismatched lengths must be rejected (the distances return a plain number, so rejection = panic)
 
 fn mismatch_exec<T: Fl>(_job: &Job) {
@@ -981,6 +1207,10 @@ fn dispatch(job: &Job) {
         ("mcov", true) => mcov_exec::<f32>(job),
         ("mdata", false) => mdata_exec::<f64>(job),
         ("mdata", true) => mdata_exec::<f32>(job),
+        ("mcovl", false) => mcovl_exec::<f64>(job),
+        ("mcovl", true) => mcovl_exec::<f32>(job),
+        ("mdatal", false) => mdatal_exec::<f64>(job),
+        ("mdatal", true) => mdatal_exec::<f32>(job),
         ("mismatch", false) => mismatch_exec::<f64>(job),
         ("mismatch", true) => mismatch_exec::<f32>(job),
         (other, _) => panic!("unknown job kind {}", other),
@@ -1034,6 +1264,11 @@ fn shift_offsets(ty: &str, d: usize) -> Vec<Vec<f64>> {
     }
     out
 }
+
+/// Round 4: exponents k of the overall covariance scales 2^k of the larger-order family (variance
+/// 1, 0.008, 6e-5, 1e-6, 9e-13 on the diagonal of the identity; both types — the smallest entry of any
+/// family member is 1e-3 * 2^-40 = 2^-50, a normal number of f32 as well).
+const LARGE_COV_EXP: &[i64] = &[0, -7, -14, -20, -40];
 
 const ALL_SCALES: &[i64] = &[0, -6, 6];
 const UNIT_SCALE: &[i64] = &[0];
@@ -1244,6 +1479,30 @@ impl Harness for C17 {
             }
         }
         jobs.extend(shifted_jobs);
+        // ---- round 4: larger orders combined with small variances (one execution = one matrix /
+        // one data set; one construction by the library, all pairs and triples of the vector
+        // catalogue inside). Covariance * 2^k with the vectors * 2^floor(k/2), an exact power of two
+        // within a factor sqrt(2) of sqrt(2^k), so the distances stay O(1).
+        let large_orders: Vec<usize> = if t { (9..=30).collect() } else { vec![12, 16, 24, 30] };
+        for n in &large_orders {
+            for cs2 in LARGE_COV_EXP {
+                for ty in TYPES {
+                    let sc2 = cs2.div_euclid(2);
+                    jobs.push(Job::new(
+                        format!("mcov-large-n{}-cov2^{}-x2^{}-{}", n, cs2, sc2, ty),
+                        json!({"kind": "mcovl", "dim": n, "cs2": cs2, "sc10": 0, "sc2": sc2, "ty": ty, "full": t}),
+                    ));
+                }
+            }
+        }
+        let large_data_cols: Vec<usize> = if t { (4..=16).collect() } else { vec![8, 12] };
+        for d in &large_data_cols {
+            for m in d + 2..=d + 4 {
+                for ty in TYPES {
+                    jobs.push(Job::new(format!("mdata-large-d{}-m{}-{}", d, m, ty), json!({"kind": "mdatal", "d": d, "m": m, "ty": ty})));
+                }
+            }
+        }
         Plan {
             jobs,
             budget_s: if t { 2700 } else { 40 },
@@ -1268,6 +1527,13 @@ impl Harness for C17 {
                 ("maha_data_shifted_sets", 100_000),
                 ("maha_data_shifted_pairs_in_tolerance", 10_000_000),
                 ("maha_data_shifted_pairs_agree_with_unshifted", 10_000_000),
+                // round 4 (quick: 280 / 108 / 84 840 / 240 / 75 / 72 720)
+                ("maha_large_order_constructed", 200),
+                ("maha_large_order_constructed_det_outside_range", 80),
+                ("maha_large_order_pairs_in_tolerance", 60_000),
+                ("maha_data_large_constructed", 150),
+                ("maha_data_large_det_outside_range_of_type", 50),
+                ("maha_data_large_pairs_in_tolerance", 50_000),
             ],
             bounds: json!({
                 "types": "f64 and f32 for every family",
@@ -1281,6 +1547,7 @@ impl Harness for C17 {
                 "mahalanobis_data": format!("rows from S5 (d=1) / S3^d (d=2,3); (d, m, sequences|multisets, data scales 2^k, types): {:?}; every data set with positive-definite sample covariance; all pairs and triples of the lattice (d<=2) / 8 fixed points (d=3) as arguments", data.iter().map(|(d, m, o, sc, ty)| format!("d={} m={} {} 2^{:?} {}", d, m, if *o { "sequences" } else { "multisets" }, sc, ty.join("+"))).collect::<Vec<_>>()),
                 "mahalanobis_tiny_and_huge_scales": format!("round 2 — new_from_covariance: every integer SPD 2x2 with |entries|<=3{} times 2^k with the query lattice times 2^(k/2), k in {:?} (f64) / {:?} (f32), all pairs and triples; from-data constructor: the (d, m) families {:?} with data rows and query points times 2^k, k in {:?} (f64) / {:?} (f32){}; same double-double closed form and the same (8+2n^2)*cond2 eps relative tolerance (cond2 is scale-invariant)", if t { " and every integer SPD 3x3 of the thorough set" } else { "" }, rescale_exponents("f64"), rescale_exponents("f32"), rescaled_shapes.iter().map(|(d, m, o)| format!("d={} m={} {}", d, m, if *o { "sequences" } else { "multisets" })).collect::<Vec<_>>(), DS_X64, DS_X32, if t { " (f32 at 2^±20 is part of the older data-scale list)" } else { "" }),
                 "mahalanobis_data_common_offset": format!("round 3 — from-data constructor on the (d, m) families {:?} (every sequence / multiset of lattice rows with positive-definite sample covariance) with one common offset vector added to every data row and every query point, lattice spacing 1 kept exactly: offsets f64 d=1 {:?}, d=2 {:?}{}; f32 d=1 {:?}, d=2 {:?}{}; all ordered pairs and triples of the shifted query points; closed form (double-double, checked to be translation invariant to 1e-20), symmetry, d(x,x)=0, triangle, and agreement with the library's result on the unshifted data; tolerance (8+2d^2)*cond2 + cond2*eps*|mean|^2/max column variance, in eps relative", shifted_shapes.iter().map(|(d, m, o)| format!("d={} m={} {}", d, m, if *o { "sequences" } else { "multisets" })).collect::<Vec<_>>(), shift_offsets("f64", 1), shift_offsets("f64", 2), if t { format!(", d=3 {:?}", shift_offsets("f64", 3)) } else { String::new() }, shift_offsets("f32", 1), shift_offsets("f32", 2), if t { format!(", d=3 {:?}", shift_offsets("f32", 3)) } else { String::new() }),
+                "mahalanobis_larger_orders_small_variances": format!("round 4 — new_from_covariance: the structured SPD families (identity, Toeplitz(2,-1), min(i,j), ones*ones'+I, ramp*ramp'+2I, graded diagonal 10^(-3i/(n-1)), D*Toeplitz*D; all 7 have cond2 <= 1e4 at every order used) of order {:?}, each times 2^k, k in {:?}, in f64 and f32 (no combination is skipped: the smallest matrix entry is 1e-3 * 2^-40, a normal f32), on the {} structured vector catalogue of that length times 2^floor(k/2); one execution = one matrix (one construction), every ordered pair and triple of the catalogue inside. From data (Distances::mahalanobis): d in {:?} columns, m = d+2..d+4 rows, the {} deterministic integer designs {:?} times the {} column scalings {:?} (column variances about 1e-5..3e-4, resp. 1e-7..3e-6 for 2^-10; 'x1' is the control), f64 and f32, every ordered pair and triple of the reduced structured catalogue of length d scaled per column. Construction must succeed (site mahalanobis.new_from_covariance|new:panic, or :panic-large-order-small-variance when the determinant — about variance^order — lies outside the normal range of the type although cond2 <= 1e4); then the same double-double closed form, axioms and (8+2n^2)*cond2 eps tolerance as the older Mahalanobis families", large_orders, LARGE_COV_EXP, if t { "full" } else { "reduced" }, large_data_cols, cat::BIG_DESIGNS.len(), cat::BIG_DESIGNS, cat::BIG_COLSCALES.len(), cat::BIG_COLSCALES),
                 "mismatched_lengths": "every metric x lengths 0..4 x 0..4 (Mahalanobis of order 1..3) x {prefix-consistent, distinct} contents",
                 "seed": format!("perturbation {:?} (a*v+b) of the lattice alphabets", cat::perturbation(seed)),
             }),
@@ -1301,6 +1568,7 @@ impl Harness for C17 {
             "'up to rounding' = (8+n) eps for Euclidian/Manhattan, (8+n+|ln d|) eps for Minkowski, 2 eps for Hamming, (8+2n^2)*cond2 eps for Mahalanobis, relative to the closed form; the triangle inequality and symmetry get three times / once that slack".into(),
             "covariance from data = unbiased sample covariance (denominator m-1)".into(),
             "data with a common offset (round 3): the Mahalanobis allowance grows by cond2 * eps * |column means|^2 / (largest column variance) units — the second-order effect of a column mean that is off by up to eps*|mean|, which no two-pass covariance can avoid; the differences x - y of the shifted points are exact. A one-pass covariance is off by 1/eps times that".into(),
+            "larger orders x small variances (round 4): a structured SPD matrix with cond2 <= 1e4 whose entries are all normal numbers of the type, and a data set whose double-double sample covariance has cond2 <= 1e4, are valid inputs of the constructors, whatever the magnitude of the determinant; a panic (the constructors unwrap the Result of the LU inverse, so an Err is a panic too) is a violation".into(),
             "rejection of mismatched lengths = panic (the API returns a bare number)".into(),
             "no library RNG is involved in this property".into(),
         ]
